@@ -67,6 +67,17 @@ CHECKS = {
    note="Trusted: Coq kernel; extraction; OCaml float instance (IEEE double, printf %g/%.1f); generator renders one tree twice; drv_prog. Results the "
         "documentation does not fix (long overflow, float->integer out of range) are flagged by the interpreter and skipped.",
    technique="Coq proof (case analysis over the value universe) + extraction-based differential testing of generated programs"),
+ "C08": dict(
+   level=("proof", "Coq theorems (axiom-free) on the object layer of the reference interpreter, for every class table: the method a virtual call reaches is "
+          "declared in the receiver's dynamic chain and no class nearer to the dynamic class declares that signature (most-derived override); the "
+          "overload chosen is the unique candidate of least conversion cost; the inheritance chain is derived-first (the order destructors walk, "
+          "constructors recurse to the base before their own initialisers and body); a static field is one cell per declaring class and writing it "
+          "changes no other. The whole-program statement is tied to the implementation by differential execution of generated class hierarchies whose "
+          "every constructor, method and destructor echoes a trace: same construction order, overload, dispatch target and destructor order. "
+          "Generic classes are not modelled (partial).", "DESIGN.md §6 C08"),
+   note="Trusted: Coq kernel; extraction; glue; generator renders one hierarchy twice. 'Most specific' is read as least total conversion cost "
+        "(exact 0, int->long 1, inheritance distance, null 3), ties ambiguous. Simultaneous release of several destructor-bearing objects is unspecified and skipped.",
+   technique="Coq proof (list/chain induction) + extraction-based differential testing of generated class hierarchies"),
  "C12": dict(
    level=("proof", "Coq theorems (axiom-free) on the reference interpreter: int arithmetic of any two in-range operands yields an in-range int; long "
           "arithmetic yields an in-range long or is flagged as outside the documentation; x % -1 = 0 for every x including the most negative long; "
